@@ -177,6 +177,70 @@ def w_program(case):
                          'expected': eS, 'observed': S, 'behaviour': 'sens'})
         outcome.append(tol.rnd(S, 5))
         model.enable_sensitivities(False)
+    # the list given to set_outputs is the caller's: reversing / extending it
+    # afterwards changes neither the selection nor the pairing of sensitivity rows
+    # with outputs; and selecting outputs through the wrapper while sensitivities
+    # are on resets them (documented), after which re-enabling gives the free set
+    if len(sel) > 1:
+        given = list(sel)
+        m.set_outputs(given)
+        m.enable_sensitivities(True)
+        given.reverse()
+        given.append(names[0])
+        y, S = m.simulate(list(pv), list(times))
+        ntr += 2
+        x_all = np.array(pv, dtype=float)
+        ey = np.real(closed(x_all, list(range(len(names)))))
+        eS = np.empty((len(times), len(sel), len(names)))
+        for k in range(len(names)):
+            z = x_all.astype(complex)
+            z[k] += 1j * 1e-30
+            eS[:, :, k] = (np.imag(closed(z, list(range(len(names)))))
+                           / 1e-30).T
+        if list(m.outputs()) != list(sel) or not tol.allclose(
+                np.asarray(y, dtype=float), ey, tol.ODE_REL, tol.ODE_ABS) or \
+                not tol.allclose(np.asarray(S, dtype=float), eS, 1e-5, 1e-7):
+            viol.append({'sub': 'outputs_alias', 'message': 'after the caller '
+                         'changed the list it had passed to set_outputs the model '
+                         'no longer returns the selected outputs / their '
+                         'sensitivities (%s)' % lab, 'expected': list(sel),
+                         'observed': list(m.outputs()),
+                         'behaviour': 'outputs_alias'})
+        m.enable_sensitivities(False)
+    fx = [len(names) - 1]
+    rm2 = chi.ReducedMechanisticModel(m)
+    rm2.fix_parameters({names[i]: pv[i] for i in fx})
+    rm2.enable_sensitivities(True)
+    rm2.set_outputs(list(sel))
+    free2 = [i for i in range(len(names)) if i not in fx]
+    x2 = np.array([pv[i] for i in free2], dtype=float)
+    res = rm2.simulate(list(x2), list(times))
+    ntr += 3
+    if isinstance(res, tuple):
+        # (sensitivities still on: then they must be those of the free parameters)
+        S2 = np.asarray(res[1], dtype=float)
+        if S2.shape[2] != len(free2):
+            viol.append({'sub': 'reduced_outputs_sens', 'message': 'after '
+                         'set_outputs on a reduced model with sensitivities on, the '
+                         'sensitivities are not w.r.t. the free parameters (%s)'
+                         % lab, 'expected': len(free2), 'observed': list(S2.shape),
+                         'behaviour': 'reduced_outputs_sens'})
+    rm2.enable_sensitivities(True)
+    y2, S2 = rm2.simulate(list(x2), list(times))
+    S2 = np.asarray(S2, dtype=float)
+    eS2 = np.empty((len(times), len(sel), len(free2)))
+    for k in range(len(free2)):
+        z = x2.astype(complex)
+        z[k] += 1j * 1e-30
+        eS2[:, :, k] = (np.imag(closed(z, free2)) / 1e-30).T
+    if S2.shape != eS2.shape or not tol.allclose(S2, eS2, 1e-5, 1e-7):
+        viol.append({'sub': 'reduced_outputs_sens', 'message': 'sensitivities of a '
+                     'reduced model after set_outputs / re-enabling are not the '
+                     'derivatives w.r.t. the free parameters (%s)' % lab,
+                     'expected': eS2, 'observed': S2,
+                     'behaviour': 'reduced_outputs_sens'})
+    rm2.fix_parameters({names[i]: None for i in fx})
+    m.enable_sensitivities(False)
     # a subset requested by name in another order than the published one (and with
     # a name twice): columns are the requested parameters in PUBLISHED order
     n_all = len(names)
@@ -467,8 +531,9 @@ WORKERS = {'generated': w_program, 'library': w_library}
 def build(tier, seed):
     # (quick: the 3-compartment model comes with identity / reversed / rotated
     # declaration orders -- the rotation is a 3-cycle w.r.t. alphabetical order)
-    topologies = ['one', 'chain2', 'mam2', 'mam3'] if tier == 'quick' else \
-        ['one', 'chain2', 'mam2', 'chain3', 'mam3']
+    topologies = ['one', 'chain2', 'chain2mixed', 'mam2', 'mam3'] \
+        if tier == 'quick' else \
+        ['one', 'chain2', 'chain2mixed', 'mam2', 'chain3', 'mam3']
     descs = sbmlgen.all_descriptors(topologies, full_perms=(tier == 'thorough'))
     cases = []
     for di, desc in enumerate(descs):
